@@ -11,6 +11,9 @@ CLAIMED = {
  "C02": ("Bounded symbolic history (vote attempts with symbolic kind/round/index, context changes, crash+restart on the same database) over the real VoteDB code; a ghost list of signed votes decides 'at most one per kind, round, index'.",
          "Trusted: gosym, z3; signatures and RLP of VoteItem idealised (native replay uses the real ones); rounds do not go back across restarts; history length 4/5.",
          "solver-based symbolic execution of go/ssa (bv), bounded history with symbolic arguments"),
+ "C03": ("Tally and escalation kernels: bounded symbolic vote histories over the real VoteSta against 'first votes of non-equivocating senders'; one step of the real judgeVoteCount from an arbitrary voter state (precommit only on a prevote quorum, certificate vote / commit only with every required quorum); the real float64 OverThreshold equals floor(0.685 T) / floor(0.585 T) in the FloatingPoint theory.",
+         "Trusted: gosym, z3. NOT covered: message caching, goroutines, credential checks of incoming votes, and 'the vote set attached to a commit verifies' (multi-step).",
+         "solver-based symbolic execution of go/ssa (bv + FloatingPoint lemma)"),
  "C04": ("Control skeleton only: search on every monotone predicate; choose's branches with gonum's CDF as an unknown non-decreasing function (least-j quantile, 0<=j<=stake, mirrored branch); MakeM injectivity; VrfVerifySortition/VrfVerifyPriority bind key, message, stake, threshold/total and seat count under an idealised VRF; computePriority is the maximum per-seat hash.",
          "Trusted: gosym, z3 (FloatingPoint + UF). NOT covered (the numeric heart): that gonum's float64 incomplete-beta CDF is the binomial CDF, float rounding, stakes beyond the small bound. One open known finding (zero-seat proposer).",
          "solver-based symbolic execution of go/ssa with uninterpreted monotone CDF"),
